@@ -9,6 +9,7 @@ for id in $ids; do
   git -C /repo apply $V/seeded/$id/patch.diff
   out=$(./check ${id:0:3} --tier quick 2>&1); rc=$?
   git -C /repo checkout -- .
+  git -C /repo clean -fdq
   # the evidence file just written describes the seeded tree: put the committed record of the unchanged tree back
   git -C $V checkout -- evidence/${id:0:3}.json 2>/dev/null
   line=$(echo "$out" | grep -E '^VIOLATION' | head -1)
